@@ -19,7 +19,7 @@ from .fitworld import frac
 
 GX = [2, 4, 6, 8, 12, 14, 16, 20]
 GX2 = [2, 4, 8, 10, 12, 16, 18, 20]
-FILTERS = [([3, 5, 6], [0, 2, 1]), ([10, 13, 17, 22], [1, 3, 3, 0])]
+FILTERS = [([3, 5, 6], [0, 2, 1]), ([10, 13, 17, 22], [1, 3, 3, 0]), ([9, 10, 11], [1, 2, 1])]      # as in Package.tla
 NAMES = {1: 'mdl_a', 2: 'mdl_b', 3: 'mdl_c', 4: 'mdl_d'}
 APS = [500.0, 4000.0]
 
@@ -109,7 +109,7 @@ def history_between(d):
 def filters():
     fs = []
     for k, (fx, fy) in enumerate(FILTERS):
-        f = make_filter(fx, fy, desc=bool(k), name='f%s' % 'AB'[k])
+        f = make_filter(fx, fy, desc=bool(k), name='f%s' % 'ABC'[k])
         fs.append(f)
     return fs
 
@@ -170,7 +170,7 @@ def replay_chunk(items, root, seed, pid='C07', fits=True):
             if refused:
                 continue
             bad = None
-            for f, fn in enumerate(['fA', 'fB']):
+            for f, fn in enumerate(['fA', 'fB', 'fC']):
                 r = ConvolvedFluxes.read(os.path.join(d, 'convolved', fn + '.fits'))
                 names = [str(x).strip() for x in r.model_names]
                 crows = [(row, k) for k in range(rep) for row in b['conv'][f]]
